@@ -190,7 +190,17 @@ def judge(prop, plan, out):
         # (a refused client whose refusal kills the server is still refused: C17's subject)
         return v, None
     if res is None:
-        if code == 1 or code == 2:
+        if code == 1:
+            # init() failed and tacd gave up (error logged, exit status 1) although every argument of a
+            # generated plan is valid: no client is ever answered
+            kind = "refused_to_start_with_valid_arguments"
+            detail = "tacd exited 1 at start-up: %s" % out["stderr"][-200:].replace("\n", " ")
+            if prop == "C17":
+                v.append({"property": "C17", "kind": "next_validation_not_answered_correctly", "cause": kind, "phase": "", "detail": detail})
+            else:
+                v.append({"property": "C16", "kind": kind, "cause": "", "phase": "", "detail": detail})
+            return v, None
+        if code == 2:
             return [], "tacd exited %s without a result: %s" % (code, out["stderr"][-300:])
         return [], "no result record (exit %s): %s" % (code, out["stderr"][-300:])
     if "harness_error" in res:
